@@ -2602,7 +2602,12 @@ pub fn sum() -> impl Function {
             |values| values.into_iter().map(|f| *f).sum::<i64>().into(),
             |(intervals, size)| {
                 Ok(data_type::Integer::try_from(multiply().super_image(
-                    &DataType::structured_from_data_types([intervals.into(), size.into()]),
+                    // A sum of different values lies between the extremes, not in the set of values:
+                    // use the convex hulls of the values and of the sizes
+                    &DataType::structured_from_data_types([
+                        intervals.into_interval().into(),
+                        size.into_interval().into(),
+                    ]),
                 )?)?)
             },
         ),
@@ -2612,7 +2617,12 @@ pub fn sum() -> impl Function {
             |values| values.into_iter().map(|f| *f).sum::<f64>().into(),
             |(intervals, size)| {
                 Ok(data_type::Float::try_from(multiply().super_image(
-                    &DataType::structured_from_data_types([intervals.into(), size.into()]),
+                    // A sum of different values lies between the extremes, not in the set of values:
+                    // use the convex hulls of the values and of the sizes
+                    &DataType::structured_from_data_types([
+                        intervals.into_interval().into(),
+                        size.into_interval().into(),
+                    ]),
                 )?)?)
             },
         ),
@@ -2642,7 +2652,12 @@ pub fn sum_distinct() -> impl Function {
                     _ => size,
                 };
                 Ok(data_type::Integer::try_from(multiply().super_image(
-                    &DataType::structured_from_data_types([intervals.into(), size.into()]),
+                    // A sum of different values lies between the extremes, not in the set of values:
+                    // use the convex hulls of the values and of the sizes
+                    &DataType::structured_from_data_types([
+                        intervals.into_interval().into(),
+                        size.into_interval().into(),
+                    ]),
                 )?)?)
             },
         ),
@@ -2666,7 +2681,12 @@ pub fn sum_distinct() -> impl Function {
                     _ => size,
                 };
                 Ok(data_type::Float::try_from(multiply().super_image(
-                    &DataType::structured_from_data_types([intervals.into(), size.into()]),
+                    // A sum of different values lies between the extremes, not in the set of values:
+                    // use the convex hulls of the values and of the sizes
+                    &DataType::structured_from_data_types([
+                        intervals.into_interval().into(),
+                        size.into_interval().into(),
+                    ]),
                 )?)?)
             },
         ),
